@@ -201,14 +201,16 @@ def cancel (ops : Ops S P R C) (w : WOp S P) (e : Env) (ans : Nat) : Step (C × 
               | .pending => .panic "unreachable!() (cancel left the operation pending)" []
         | _ => .panic "unreachable!()" []
 
-/-- `impl Drop for WaitableOperation` followed by the drop glue of its fields (`task`).
+/-- `impl Drop for WaitableOperation`: cancel unless done, and drop the cancel result.
 `dropC` = events of dropping the cancel result that `Drop::drop` discards. -/
+def dropCancel (ops : Ops S P R C) (dropC : C → List Ev) (w : WOp S P) (e : Env) (ans : Nat) : Step (WOp S P × Env) :=
+  match w.state with
+  | .done => .ok (w, e) []
+  | _ => (cancel ops w e ans).bind fun (c, w1, e1) => .ok (w1, e1) (dropC c)
+
+/-- the destructor of a `WaitableOperation`: `Drop::drop`, then the drop glue of its fields (`task`) -/
 def dropOp (ops : Ops S P R C) (dropC : C → List Ev) (w : WOp S P) (e : Env) (ans : Nat) : Step Env :=
-  let cancelled : Step (WOp S P × Env) :=
-    match w.state with
-    | .done => .ok (w, e) []
-    | _ => (cancel ops w e ans).bind fun (c, w1, e1) => .ok (w1, e1) (dropC c)
-  cancelled.bind fun (w1, e1) =>
+  (dropCancel ops dropC w e ans).bind fun (w1, e1) =>
     match w1.task with
     | none => .ok e1 []
     | some t => let (e2, evs) := t.dropEvs e1; .ok e2 evs
